@@ -308,6 +308,8 @@ where
 #[tracable_parser]
 #[packrat_parser]
 pub(crate) fn white_space(s: Span) -> IResult<Span, WhiteSpace> {
+    #[cfg(feature = "verif")]
+    crate::verif::point("white_space");
     if in_directive() {
         map(multispace1, |x: Span| {
             WhiteSpace::Space(Box::new(into_locate(x)))
@@ -342,14 +344,25 @@ pub(crate) fn in_directive() -> bool {
 }
 
 pub(crate) fn begin_directive() {
+    #[cfg(feature = "verif")]
+    crate::verif::point("begin_directive");
     IN_DIRECTIVE.with(|x| x.borrow_mut().push(()));
 }
 
 pub(crate) fn end_directive() {
+    #[cfg(feature = "verif")]
+    crate::verif::point("end_directive");
     IN_DIRECTIVE.with(|x| x.borrow_mut().pop());
 }
 
+#[cfg(feature = "verif")]
+pub(crate) fn verif_directive_depth() -> usize {
+    IN_DIRECTIVE.with(|x| x.borrow().len())
+}
+
 pub(crate) fn clear_directive() {
+    #[cfg(feature = "verif")]
+    crate::verif::point("clear_directive");
     IN_DIRECTIVE.with(|x| x.borrow_mut().clear());
 }
 
@@ -375,6 +388,8 @@ thread_local!(
 );
 
 pub(crate) fn begin_keywords(version: &str) {
+    #[cfg(feature = "verif")]
+    crate::verif::point("begin_keywords");
     CURRENT_VERSION.with(|current_version| match version {
         "1364-1995" => current_version.borrow_mut().push(Version::Ieee1364_1995),
         "1364-2001" => current_version.borrow_mut().push(Version::Ieee1364_2001),
@@ -392,6 +407,8 @@ pub(crate) fn begin_keywords(version: &str) {
 }
 
 pub(crate) fn end_keywords() {
+    #[cfg(feature = "verif")]
+    crate::verif::point("end_keywords");
     CURRENT_VERSION.with(|current_version| {
         current_version.borrow_mut().pop();
     });
@@ -404,7 +421,14 @@ pub(crate) fn current_version() -> Option<Version> {
     })
 }
 
+#[cfg(feature = "verif")]
+pub(crate) fn verif_version_stack() -> Vec<u8> {
+    CURRENT_VERSION.with(|x| x.borrow().iter().map(|v| *v as u8).collect())
+}
+
 pub(crate) fn clear_version() {
+    #[cfg(feature = "verif")]
+    crate::verif::point("clear_version");
     CURRENT_VERSION.with(|current_version| {
         current_version.borrow_mut().clear();
     });
@@ -425,6 +449,8 @@ pub(crate) fn concat<'a>(a: Span<'a>, b: Span<'a>) -> Option<Span<'a>> {
 }
 
 pub(crate) fn is_keyword(s: &Span) -> bool {
+    #[cfg(feature = "verif")]
+    crate::verif::point("is_keyword");
     let keywords = match current_version() {
         Some(Version::Ieee1364_1995) => KEYWORDS_1364_1995,
         Some(Version::Ieee1364_2001) => KEYWORDS_1364_2001,
